@@ -6,6 +6,7 @@ package main
 import (
 	"errors"
 	"fmt"
+	"reflect"
 	"sync"
 
 	"github.com/bradenaw/juniper/xsync"
@@ -135,6 +136,9 @@ func same(a, b any) bool {
 	if a == nil || b == nil {
 		return a == nil && b == nil
 	}
+	if ta := reflect.TypeOf(a); !ta.Comparable() || !reflect.TypeOf(b).Comparable() {
+		return reflect.DeepEqual(a, b)
+	}
 	return a == b
 }
 
@@ -201,10 +205,14 @@ func main() {
 	rs = append(rs, explore[string]("string", []string{"", "x"}, []string{`""`, `"x"`}, depth))
 	rs = append(rs, explore[error]("error", []error{nil, errA}, []string{"nil", "errA"}, depth))
 	rs = append(rs, explore[any]("any", []any{nil, 0, "x"}, []string{"nil", "0", `"x"`}, depth-1))
+	// values that cannot be compared: sync.Map's CompareAndSwap/CompareAndDelete panic on them, and so
+	// must the typed map ("exactly what sync.Map returns")
+	rs = append(rs, explore[any]("any(non-comparable)", []any{nil, []int{1}}, []string{"nil", "[]int{1}"}, depth-1))
+	rs = append(rs, explore[[]int]("[]int", [][]int{nil, {1}}, []string{"nil", "[]int{1}"}, depth-1))
 	var table []map[string]any
 	for i, r := range rs {
 		run.AddCounts(r.seqs, r.seqs, r.seqs)
-		table = append(table, map[string]any{"value_type": []string{"int", "string", "error", "any"}[i], "sequences": r.seqs})
+		table = append(table, map[string]any{"value_type": []string{"int", "string", "error", "any", "any holding a slice", "[]int"}[i], "sequences": r.seqs})
 		if r.viol != nil {
 			run.Violate(*r.viol)
 		}
